@@ -131,7 +131,14 @@ def gen(seed, tier):
             if k < 0.3 and focus_snips:
                 ops.append(['load', rng.choice(focus_snips), rng.random() < 0.15, 'string'])
                 continue
-            if k < 0.45:
+            if k < 0.38:
+                # facts and registrations of the focus predicate come and go under the suspended calls as well
+                if rng.random() < 0.5:
+                    ops.append(['assert', focus[0], focus[1], rng.random() < 0.3, 'current'])
+                else:
+                    ops.append(['reg', focus[0], focus[1], rng.choice(['inferred', 'explicit']), rng.random() < 0.5, 'function'])
+                continue
+            if k < 0.5:
                 ops.append(['qstart', focus[0], focus[1]])
                 continue
             if k < 0.75:
